@@ -350,7 +350,7 @@ def ref_resize(script, a, start, lo, hi):
 
 
 # ------------------------------------------------------------------------------------------------
-def drive(w, script, call, cap, seeded_extra=40):
+def drive(w, script, call, cap, seeded_extra=40, guard=None):
     """run `call(handler)` under every tape (<= cap), returns (set of results, complete?)"""
     results = {}
     tape = []
@@ -365,6 +365,11 @@ def drive(w, script, call, cap, seeded_extra=40):
             except Violation:
                 raise
         n_exec += 1
+        if guard is not None:
+            changed = guard()
+            if changed:
+                w.violation("inputs-untouched", "argument-modified-by-call", {"what": changed, "draws": list(od.taken)}, ["routine=" + script["routine"]])
+                raise Violation("inputs-untouched", "argument-modified-by-call", "stop")
         w.steps += 1
         key = json.dumps(res, sort_keys=True, default=str)
         results.setdefault(key, (res, list(od.taken), od))
@@ -464,7 +469,17 @@ def _execute_once(script, w, G_in, a_in, feats_extra):
 
             rec_search(tuple(start), script["iterations"])
             call = lambda: tuple(clique.search(list(start), G, script["iterations"], node_select=node_select))  # noqa
-        results, complete = drive(w, script, call, tier_cap)
+        nodes0, edges0 = list(G.nodes), sorted(tuple(sorted(e)) for e in G.edges)
+        ws0 = list(node_select) if isinstance(node_select, list) else None
+
+        def guard():
+            if list(G.nodes) != nodes0 or sorted(tuple(sorted(e)) for e in G.edges) != edges0:
+                return {"graph": "modified"}
+            if ws0 is not None and list(node_select) != ws0:
+                return {"weights": "modified"}
+            return None
+
+        results, complete = drive(w, script, call, tier_cap, guard=guard)
         got = {tuple(v[0]) for v in results.values()}
         for res in got:
             if not set(res) <= set(range(g["n"])) or not is_clique(a, res) or list(res) != sorted(res):
@@ -617,8 +632,9 @@ def _execute_once(script, w, G_in, a_in, feats_extra):
                 return
             w.violation("structure", "orbit_to_sample-accepts-too-long-orbit", {"orbit": orbit, "modes": modes}, feats)
             return
-        call = lambda: tuple(int(x) for x in similarity.orbit_to_sample(list(orbit), modes))  # noqa
-        results, complete = drive(w, script, call, tier_cap)
+        user_orbit = list(orbit)  # the caller's own list, handed over as it is: it must come back unchanged
+        call = lambda: tuple(int(x) for x in similarity.orbit_to_sample(user_orbit, modes))  # noqa
+        results, complete = drive(w, script, call, tier_cap, guard=lambda: None if user_orbit == list(orbit) else {"orbit": list(orbit), "now": list(user_orbit)})
         got = {tuple(v[0]) for v in results.values()}
         for res in got:
             if len(res) != modes or sorted((x for x in res if x), reverse=True) != sorted(orbit, reverse=True):
